@@ -87,6 +87,7 @@ type summary struct {
 	Effects map[string]effect
 	Escapes map[int]bool // parameter index whose pointer may be retained beyond the call
 	Fresh   map[int]bool // result index whose value is always an object allocated during the call
+	CallsUnknown bool    // may run code outside the analysed set through an interface or function value
 }
 
 // Effects is the whole-program (module + runewidth/uniseg + synthetic wrappers) effect analysis.
@@ -508,6 +509,10 @@ func (e *Effects) summarise(fn *ssa.Function) bool {
 			}
 			return
 		}
+		if !s.CallsUnknown && e.siteCallsUnknown(fn, ci) {
+			s.CallsUnknown = true
+			changed = true
+		}
 		// actuals, receiver first
 		var actuals []ssa.Value
 		if cc.IsInvoke() {
@@ -525,6 +530,10 @@ func (e *Effects) summarise(fn *ssa.Function) bool {
 				continue
 			}
 			known = true
+			if cs.CallsUnknown && !s.CallsUnknown {
+				s.CallsUnknown = true
+				changed = true
+			}
 			bindings := []ssa.Value(nil)
 			if mc, ok := cc.Value.(*ssa.MakeClosure); ok {
 				bindings = mc.Bindings
@@ -760,4 +769,39 @@ func (e *Effects) EffectsOf(fn *ssa.Function) []effect {
 		out = append(out, s.Effects[k])
 	}
 	return out
+}
+
+// trustedIface: interfaces of the module all of whose implementations are module types
+// (wrappers embedding a Table, the four property owners, the error containers, the alignment values).
+func trustedIface(t types.Type) bool {
+	n, ok := t.(*types.Named)
+	if !ok || n.Obj().Pkg() == nil || !strings.HasPrefix(n.Obj().Pkg().Path(), modPath) {
+		return false
+	}
+	switch n.Obj().Name() {
+	case "Table", "RenderTable", "PropertyOwner", "ErrorReceiver", "ErrorSource", "propertySet", "Alignment":
+		return true
+	}
+	return false
+}
+
+// siteCallsUnknown: the call may run user-supplied code (a callback, a method of a stored item, a function value).
+func (e *Effects) siteCallsUnknown(fn *ssa.Function, ci ssa.CallInstruction) bool {
+	cc := ci.Common()
+	if _, ok := cc.Value.(*ssa.Builtin); ok {
+		return false
+	}
+	if cc.StaticCallee() != nil {
+		return false
+	}
+	if cc.IsInvoke() {
+		if trustedIface(cc.Value.Type()) {
+			return false
+		}
+		if assertedConcreteType(cc.Value, ci.(ssa.Instruction)) != nil {
+			return false
+		}
+		return true
+	}
+	return true // call of a function value
 }
